@@ -17,7 +17,6 @@ PRIM_API = {
     "HashSet::contains": "contains", "HashMap::contains_key": "contains",
     "HashMap::get": "get", "HashSet::get": "getkey",
     # parallel siblings
-    "HashSet::par_iter": "iter", "HashMap::par_iter": "iter", "HashSet::into_par_iter": "iter", "HashMap::par_keys": "keys",
 }
 
 
@@ -78,6 +77,8 @@ class SymExec:
         if v[0] == "downcast":
             # (x as Some).0  -> payload of x
             return ("payload", v[1], v[2], i)
+        if v[0] == "set":
+            return v      # a field of the collection (its map / its table) stands for the collection's contents
         return ("field", v, i)
 
     def operand(self, body, env, op):
@@ -180,14 +181,20 @@ class SymExec:
         lc = c.local_callee()
         name = c.name or ""
         if lc is not None:
+            if c.trait == "core::ops::Deref" and len(args) == 1:
+                return args[0]      # Deref of the located bucket to the raw bucket: same element
             api = api_of(lc.path)
             if api in PRIM_API:
                 return (PRIM_API[api],) + tuple(args)
+            if lc.name == "par_iter" and "self_ty" in lc.raw and self.ctx.facts.types[lc.raw["self_ty"]].get("adt") == self.ctx.roles.S:
+                return ("iter", args[0])     # the raw both-tables parallel iterator (B-par / K-field) over the collection's contents
             if lc.kind == "Closure":
                 return self.apply_closure(args[0], args[1:], depth)
             return self.run(lc, args, depth + 1)
         m = c.method
         if name.startswith("core::iter::") or name.startswith("rayon::iter::"):
+            if m == "drive_unindexed":
+                return ("drive_unindexed", args[0], args[1])
             if m in ("all", "any", "chain", "cloned", "copied", "collect", "into_iter", "map", "filter", "into_par_iter", "par_iter"):
                 if m in ("all", "any"):
                     return (m, args[0], self.closure_pred(args[1], depth))
@@ -205,6 +212,9 @@ class SymExec:
                 return ("is_some", args[0])
             if m == "is_none":
                 return ("not", ("is_some", args[0]))
+        if name in ("core::ops::Deref::deref", "hashbrown::raw::Bucket::as_ref", "hashbrown::raw::Bucket::as_mut") or \
+                (lc is None and m in ("deref", "as_ref", "as_mut") and len(args) == 1):
+            return args[0]
         if name in ("core::cmp::PartialEq::eq",):
             return ("eq", args[0], args[1])
         if name in ("core::cmp::PartialEq::ne",):
@@ -283,6 +293,10 @@ class Eval:
                 return base[idx]
             if k == "payload":
                 return base
+            if idx == 0:
+                return base       # element of a set seen as a (key, ()) pair
+            if idx == 1:
+                return ()
             raise Unknown("field of non-tuple")
         if k == "contains":
             s = self.val(v[1], model, elem)
